@@ -1,6 +1,7 @@
 import Sif.Proofs.C12
 import Sif.Proofs.C12Sym
 import Sif.Generated.Perms
+set_option linter.unusedSimpArgs false
 /-
   C12 — Token-registry permissions gate every AMM operation and IBC export.
   Property theorems only.
